@@ -71,6 +71,17 @@ pub fn run_workload(case: &Case) -> WorkloadRun {
     };
     trace::mark(&dev, Mark::OpenEnd);
     runner.readback_policy = Some(2);
+    // half of the workloads acknowledge through several application threads at once: every
+    // flush() that returns Ok is an acknowledgement of everything completed before it began
+    runner.co_flush = match case.t0_offset % 4 {
+        1 => 1,
+        2 => 2,
+        _ => 0,
+    };
+    {
+        let dev = dev.clone();
+        runner.co_flush_ack = Some(Arc::new(move |step: usize| trace::mark(&dev, Mark::FlushOk { step })));
+    }
     let mut usable = true;
     let mut note = String::new();
     let dbg_t0 = std::time::Instant::now();
